@@ -79,8 +79,24 @@ def expiry_cases():
         out.append((f'{role}.json expired an hour ago, enforcement off', scenario([base_root()], [c2]), lambda r: not r['cycles'][0]['ok'], 'expiry'))
     return out
 
+def failed_cycle_cases():
+    """cycle 1 trusts version 5 of everything; cycle 2 is served version 6 but fails at `role` (unsigned document); cycle 3 replays version 4:
+    whatever the failed cycle did to the datastore, the replay must still be refused; and a later valid version 6 must still be accepted"""
+    out = []
+    for role in ('snapshot', 'targets'):
+        c1 = cyc(5); c2 = cyc(6); c2[role] = dict(c2[role], signers=[])
+        c3 = cyc(4)
+        out.append((f'after trusting version 5, a cycle that fails at {role}.json (unsigned), then a replay of version 4 of everything', scenario([base_root()], [c1, c2, c3]),
+                    lambda r: not (r['cycles'][0]['ok'] and not r['cycles'][1]['ok'] and not r['cycles'][2]['ok']), 'failed-cycle'))
+        c3b = cyc(5); c3b['timestamp'] = dict(c3b['timestamp'], version=4)
+        out.append((f'after trusting version 5, a cycle that fails at {role}.json (unsigned), then a replay of the older timestamp 4 (snapshot / targets unchanged)', scenario([base_root()], [c1, c2, c3b]),
+                    lambda r: not (r['cycles'][0]['ok'] and not r['cycles'][1]['ok'] and not r['cycles'][2]['ok']), 'failed-cycle'))
+        out.append((f'after a cycle that fails at {role}.json, a complete valid version 6 is accepted', scenario([base_root()], [c1, c2, cyc(6)]),
+                    lambda r: not (r['cycles'][0]['ok'] and not r['cycles'][1]['ok'] and r['cycles'][2]['ok']), 'failed-cycle'))
+    return out
+
 def all_cases(kinds=None):
-    cases = signature_cases() + rollback_cases() + meta_cases() + expiry_cases()
+    cases = signature_cases() + rollback_cases() + meta_cases() + expiry_cases() + failed_cycle_cases()
     return [c for c in cases if kinds is None or c[3] in kinds]
 
 def run(R, kinds=None, label='client conformance menu'):
